@@ -249,12 +249,13 @@ def part_client(ctx, n):
             eol = rnd.choice(['\n', '\n', '\r\n', '\r'])
             base_text = layout.render(base, eol, final)
             names = [l[1] for l in base]
-            params = [(k, rnd.choice(['60', '2', 'x y', '1e9'])) for k in rnd.sample(names + ['New 1', 'New 2'], rnd.randint(1, 3))]
+            params = [(k, rnd.choice(['60', '2', 'x y', '1e9', 0, 0.0, False, '0', 0, True, 7, 2.5]))
+                      for k in rnd.sample(names + ['New 1', 'New 2'], rnd.randint(1, 3))]   # values as the caller gives them: str(v) is written
         text, got = client_case(ctx, base_text, params)
-        plit = '[' + '; '.join(f'({ulit(k)}, {ulit(v)})' for k, v in params) + ']'
+        plit = '[' + '; '.join(f'({ulit(k)}, {ulit(str(v))})' for k, v in params) + ']'
         terms.append(f'US.eqb (client_text {ulit(base_text)} {plit}) {ulit(text)}')
         cases.append((base_text, params, text))
-        lost = [k for k, v in params if got.get(k) != v]
+        lost = [k for k, v in params if got.get(k) != str(v)]
         ctx.count('client-append', evaluations=1, nontrivial_keys=[(i, final, eol)], base_terminated={str(final): 1})
         if lost:
             glued = not (base_text.endswith('\n') or base_text.endswith('\r') or not base_text)
@@ -262,7 +263,7 @@ def part_client(ctx, n):
             ctx.violate('property', key,
                         'GeophiresInputParameters(params, from_file_path): an override parameter does not govern the run '
                         + ('(base file has no final line terminator: the first override is glued to its last line)' if glued else ''),
-                        inp={'part': 'client', 'base_text': base_text, 'params': params}, expected=dict(params),
+                        inp={'part': 'client', 'base_text': base_text, 'params': params}, expected={k: str(v) for k, v in params},
                         observed={k: got.get(k) for k, _ in params})
     failing = fw.kernel_bools(ctx, 'client', REQ, terms, open_scope='N_scope')
     for i in failing[:3]:
@@ -341,6 +342,79 @@ def part_runs(ctx, bases=None, classes=layout.CLASSES):
     ctx.count('whole-runs', bases_with_report={'yes': ok, 'no': len(bases) - ok})
     ctx.sample('whole-runs', {'base': bases[0][0], 'variant_perm': texts[1]})
     return bad
+
+
+# ------------------------------------------------------------------------------------------ (g) one caching client, many layouts
+def _cache_history_job(a):
+    texts, order, scratch = a
+    import os
+    import sys
+    from geophires_x_client import GeophiresInputParameters, GeophiresXClient
+    os.chdir(scratch)
+    sys.stdout = open(os.devnull, 'w')
+    d = Path(scratch, f'cache_{uuid.uuid4().hex[:8]}')
+    d.mkdir()
+    paths = []
+    for i, t in enumerate(texts):
+        p = d / f'variant_{i}.txt'
+        p.write_bytes(t.encode('utf-8'))
+        paths.append(str(p))
+    client, out = GeophiresXClient(), []      # ONE client, caching on (the default)
+    for i in order:
+        try:
+            r = client.get_geophires_result(GeophiresInputParameters(from_file_path=Path(paths[i])))
+            out.append(Path(r.output_file_path).read_text(encoding='UTF-8', errors='replace'))
+        except BaseException as e:  # noqa
+            out.append('NO REPORT: ' + f'{type(e).__name__}: {e}'[:200])
+    return [paths[i] for i in order], out
+
+
+def part_cache_history(ctx, bases):
+    """files with the same lines in another order - in particular two duplicates of one parameter swapped, so that ANOTHER value
+    governs - given to one caching client one after another: each request must get the result of ITS file"""
+    from concurrent.futures import ProcessPoolExecutor
+    rnd, jobs, texts_all = ctx.rng, [], []
+    for name, lines in bases:
+        cand = [l for l in lines if l[0] == 'p' and l[1] in ('Gradient 1', 'Reservoir Depth', 'Production Flow Rate per Well', 'Injection Temperature',
+                                                           'Utilization Factor', 'Plant Lifetime')]
+        try:
+            z = rnd.choice(cand)
+            other = repr(round(float(z[2]) * 0.9, 3)) if '.' in z[2] else str(int(float(z[2]) * 0.9) or 1)
+        except (IndexError, ValueError):
+            continue
+        rest = [l for l in lines if l is not z]
+        a = rest + [('p', z[1], other, ''), z]                 # z governs
+        b = rest + [z, ('p', z[1], other, '')]                 # the same lines, the other value governs
+        texts = [layout.render(a), layout.render(b), layout.variant(rnd, a, 'perm'), layout.render(b, '\r\n'), layout.variant(rnd, b, 'perm')]
+        order = [0, 1, 2, 3, 0, 4, 1]
+        jobs.append((texts, order, str(ctx.scratch)))
+        texts_all.append((name, texts, order))
+    refs = runner.run_many(ctx, [t for _, texts, _ in texts_all for t in texts], workers=8)
+    with ProcessPoolExecutor(max_workers=8, initializer=runner._init_worker, initargs=(str(ctx.scratch),)) as ex:
+        res = list(ex.map(_cache_history_job, jobs))
+    terms, k = [], 0
+    for (name, texts, order), (paths, outs) in zip(texts_all, res):
+        ref = [masked(r) for r in refs[k:k + len(texts)]]
+        k += len(texts)
+        got = [MASK.sub('', o).replace('-0.00', '0.00') if not o.startswith('NO REPORT') else 'NO REPORT' for o in outs]
+        # which file's result each request got (first matching reference among the files requested so far, own first)
+        obs = []
+        for n, (i, g) in enumerate(zip(order, got)):
+            cands = [i] + [j for j in order[:n] if j != i]
+            obs.append(next((order.index(j) for j in cands if ref[j] == g or (ref[j].startswith('NO REPORT') and g == 'NO REPORT')), 99))
+        terms.append(f'cache_check [{"; ".join(ulit(p) for p in paths)}] {blist(obs)}')
+        ctx.count('client-cache-history', evaluations=len(order), nontrivial_keys=[(name, n) for n in range(len(order))])
+        wrong = [n for n, (i, g) in enumerate(zip(order, got)) if g != ref[i] and not (ref[i].startswith('NO REPORT') and g == 'NO REPORT')]
+        if wrong and ref[0] != ref[1]:
+            n = wrong[0]
+            ctx.violate('property', 'client-cache:layout-variant-answered-with-another-files-result',
+                        f'one caching GeophiresXClient, variants of input {name} (same lines, duplicates in another order) one after another: '
+                        f'request {n} did not get the result of its own file',
+                        inp={'part': 'cache-history', 'name': name, 'texts': texts, 'order': order}, expected='the report of the requested file',
+                        observed={'request': n, 'file': order[n], 'got_result_of_request': obs[n]})
+    for i in fw.kernel_bools(ctx, 'cache', REQ, terms, open_scope='N_scope'):
+        ctx.violate('corr', 'client-cache:model-disagrees', 'Coq model serve/key_path and the caching client disagree on which result a request gets',
+                    inp={'part': 'cache-history', 'name': texts_all[i][0], 'texts': texts_all[i][1], 'order': texts_all[i][2]})
 
 
 # ------------------------------------------------------------------------------------------ (f) list-valued lines, ReadParameter
@@ -429,6 +503,13 @@ def part_client_runs(ctx, bases):
         base = [(('p', l[1], rnd.choice(['99999', '0', 'junk', '-1']), '') if id(l) in stale else None) if l in moved else l for l in lines]
         base = [l for l in base if l is not None]
         params = [(l[1], l[2]) for l in moved]
+        # an override to zero / False of a parameter that is non-zero in the base file (the plain file carries the zero)
+        zname, nonzero, zero = rnd.choice([('Inflation Rate During Construction', '0.05', 0), ('Water Loss Fraction', '0.05', 0.0),
+                                           ('Production Wellbore Temperature Drop', '4', '0'), ('Injection Wellbore Temperature Gain', '2', 0),
+                                           ('Water Loss Fraction', '0.08', '0.0'), ('Ramey Production Wellbore Model', 'True', False)])
+        base = [l for l in base if l[1] != zname] + [('p', zname, nonzero, '')]
+        params = [(k, v) for k, v in params if k != zname] + [(zname, zero)]
+        lines = [l for l in lines if not (l[0] == 'p' and l[1] == zname)] + [('p', zname, str(zero), '')]
         refs.append(layout.render(lines))
         for variant in ('order-a', 'order-b'):
             if variant == 'order-b':
@@ -460,6 +541,7 @@ def correspondence(ctx, proofs_ok=True):
     bases = base_inputs(ctx)
     part_runs(ctx, bases)
     part_client_runs(ctx, bases[:ctx.n(10, 40)])
+    part_cache_history(ctx, bases[ctx.n(10, 40):][:ctx.n(6, 30)] + bases[:2])
 
 
 def search(ctx):
@@ -495,7 +577,18 @@ def replay(ctx, data):
         text, got = client_case(ctx, inp['base_text'], params)
         print('file written by the client:', repr(text))
         print('overrides:', dict(params), '-> read back:', {k: got.get(k) for k, _ in params})
-        bad = any(got.get(k) != v for k, v in params)
+        bad = any(got.get(k) != str(v) for k, v in params)
+    elif part == 'cache-history':
+        before = len(ctx.violations)
+        lines = canonical(inp['texts'][0])
+        refs = runner.run_many(ctx, inp['texts'])
+        from concurrent.futures import ProcessPoolExecutor
+        with ProcessPoolExecutor(max_workers=1, initializer=runner._init_worker, initargs=(str(ctx.scratch),)) as ex:
+            paths, outs = ex.submit(_cache_history_job, (inp['texts'], inp['order'], str(ctx.scratch))).result()
+        got = [MASK.sub('', o).replace('-0.00', '0.00') for o in outs]
+        wrong = [n for n, (i, g) in enumerate(zip(inp['order'], got)) if g != masked(refs[i]) and not g.startswith('NO REPORT')]
+        print('requests (file index):', inp['order'], '-> requests that did not get their own file\'s result:', wrong)
+        bad = bool(wrong)
     elif part == 'list':
         before = len(ctx.violations)
         part_list_params(ctx, 0)
